@@ -11,9 +11,9 @@ demoname=$(basename ${demo%.rs})
 # (separate target directory, removed afterwards); the suite itself always runs with the guard off
 demoflags=""; demotarget=$d/target
 if grep -q redb_verif $demo; then demoflags="--cfg redb_verif"; demotarget=$d/target-verif; echo "(demo is run with RUSTFLAGS=--cfg redb_verif)" >> $log; fi
-rundemo() { RUSTFLAGS="$demoflags" CARGO_TARGET_DIR=$demotarget cargo nextest run --workspace -E "binary($demoname)" --no-fail-fast --offline 2>&1 | grep -E "Summary|FAIL \[|PASS \[" | sort -u >> $log; }
+rundemo() { RUSTFLAGS="$demoflags" CARGO_TARGET_DIR=$demotarget cargo nextest run --workspace --exclude redb-bench-compare -E "binary($demoname)" --no-fail-fast --offline 2>&1 | grep -E "Summary|FAIL \[|PASS \[" | sort -u >> $log; }
 echo "== with change: full suite" >> $log
-cargo nextest run --workspace --no-fail-fast --test-threads 8 --offline 2>&1 | grep -E "Summary|FAIL \[" | sort -u >> $log
+cargo nextest run --workspace --exclude redb-bench-compare --no-fail-fast --test-threads 8 --offline 2>&1 | grep -E "Summary|FAIL \[" | sort -u >> $log
 echo "== with change: demo only" >> $log
 rundemo
 git diff -- src > $d/SEED/.confirm.patch; git checkout -- src
